@@ -50,6 +50,9 @@ type HostSpec struct {
 	// usual challenge: "" = the usual challenge; "nohdr" = no Www-Authenticate at all; "negotiate" = an
 	// unsupported scheme; "malformed" = an unparsable header.
 	Retry401 string `json:"retry401,omitempty"`
+	// ClockAheadMs: the token server's clock runs this far ahead of the client's (issued_at lies in the
+	// client's future)
+	ClockAheadMs int `json:"clock_ahead_ms,omitempty"`
 	// Body401DelayMs: the body of the registry's 401 responses takes this long (virtual time) to arrive
 	Body401DelayMs int `json:"body401_delay_ms,omitempty"`
 }
@@ -402,7 +405,12 @@ func (w *World) tokenServer(hs []*HostSpec, req *http.Request, a *Arrival, body 
 	if h == nil {
 		h = hs[0]
 	}
+	// GET (the docker token protocol): one scope parameter per resource scope. POST (OAuth2): the
+	// scope is ONE space-separated field; like the reference server, only the first is read.
 	scopeText := strings.Join(form["scope"], " ")
+	if req.Method == "POST" {
+		scopeText = form.Get("scope")
+	}
 	a.TokScope = scopeText
 	if req.Method == "POST" && h.NoPost {
 		a.Status = 404
@@ -474,6 +482,11 @@ func (w *World) tokenServer(hs []*HostSpec, req *http.Request, a *Arrival, body 
 	if h.IssuedAgoMs > 0 && h.IssuedAgoMs < ttl*1000 {
 		t.IssuedMs -= int64(h.IssuedAgoMs)
 		out["issued_at"] = w.Start.Add(time.Duration(t.IssuedMs) * time.Millisecond).UTC().Format(time.RFC3339Nano)
+	}
+	if h.ClockAheadMs > 0 && h.IssuedAgoMs == 0 {
+		// the token server's clock is ahead of the client's: the token says it was issued at a moment
+		// that the client has not reached yet; it expires expires_in after it was handed out all the same
+		out["issued_at"] = w.Start.Add(time.Duration(a.AtMs+int64(h.ClockAheadMs)) * time.Millisecond).UTC().Format(time.RFC3339Nano)
 	}
 	a.Minted = &t
 	if h.TokenFault == "accessfield" {
